@@ -864,7 +864,11 @@ def run(ctx):
                   "; plus a mixed-precision stream: storage float32/float64/int64/bool x time tensors and scalar times in float64 or "
                   "float32, records of 24..256 slots (times to ~330), dt in {1.3,.9,.45,.1}, on-grid times as computed in float64, "
                   "within / outside tolerance (default 1e-6 for float64 times), probe interpolations exposing the decision; floating "
-                  "storage cases also through the Coq model in binary64 on the exact times",
+                  "storage cases also through the Coq model in binary64 on the exact times; in it the observation of every insert has a data "
+                  "type chosen independently of the record's (wider / narrower / int <-> float <-> bool): the record's type must never "
+                  "change and the stored values are the observation converted to it. In every stream ~35% of the select / insert calls "
+                  "leave optional arguments out (offset, tolerance, interp / extrap, *_kwargs, inplace): model and oracle then use the "
+                  "DOCUMENTED defaults hard-coded in this file",
         "op_distribution": dict(dist), "error_distribution": dict(errs), "time_kind_distribution": dict(kinds),
         "roundtrip_pairs": dict(pairs),
         "N_distribution": dict(Counter(c["N"] for c in cases)),
